@@ -219,8 +219,10 @@ def main(tier):
                 "to a dead port), notify, observe register/cancel, session create+reference+release, "
                 "resource add+delete, async, ping, state queries; request/response/NACK/event/ping/"
                 "pong handlers re-enter the API (notify, cache, async, send, can_exit, io_pending). "
-                "Variants: repository CMake defaults (epoll) and select(), recursive-lock-check, all "
-                "under gcc ThreadSanitizer; assertions-on build without sanitizer. Lock acquisitions, "
+                "Variants: repository CMake defaults (epoll) and select(), recursive-lock-check, "
+                "the autotools build (./configure --enable-thread-safe on a copy of the tree; "
+                "thorough tier), all under gcc ThreadSanitizer; assertions-on build without "
+                "sanitizer. Lock acquisitions, "
                 "owner hand-overs and distinct (previous owner's operation > next owner's operation) "
                 "pairs are recorded through a link-time wrap of coap_lock_lock_func")
     run.assumptions = ["suppression race:^coap_lock_lock_func$ (the lock's own unlocked pre-check of "
@@ -228,7 +230,8 @@ def main(tier):
                        "the application keeps a session alive while it uses it; only the library's "
                        "internal accesses are judged",
                        "TSan sees executed interleavings only"]
-    variants = ["tsan", "tsan-sel"] if tier == "quick" else ["tsan", "tsan-sel", "tsan-rc", "lockchk"]
+    variants = ["tsan", "tsan-sel"] if tier == "quick" else ["tsan", "tsan-sel", "tsan-rc", "tsan-at",
+                                                             "lockchk"]
     small = ("tsan-sel",)      # select() I/O loop: known finding, reproduced by one small run
     exes = {}
     for v in variants:
